@@ -11,6 +11,7 @@ import (
 	"encoding/json"
 	"fmt"
 	"os"
+	"regexp"
 	"sort"
 	"strings"
 	"testing"
@@ -70,6 +71,7 @@ type env struct {
 	l2, f    *node
 	ro       *node
 	tpl      *node
+	empty    *node // leader without data: a reply that differs from the prepared leader's depends on the data
 	ncu      *node
 	pwFile   *node
 	pwSet    *node
@@ -90,7 +92,7 @@ type env struct {
 }
 
 func (e *env) nodes() []*node {
-	return []*node{e.ref, e.l2, e.f, e.ro, e.tpl, e.ncu, e.pwFile, e.pwSet, e.prot}
+	return []*node{e.ref, e.l2, e.f, e.ro, e.tpl, e.empty, e.ncu, e.pwFile, e.pwSet, e.prot}
 }
 
 func (e *env) close() {
@@ -156,6 +158,7 @@ func newEnv(t failer, cs map[string]*ev.Collector, wanted map[modeKind]bool) *en
 	}
 	if want(mNCU) {
 		e.tpl = must(startNode("template", t38.Opts{}))
+		e.empty = must(startNode("empty-leader", t38.Opts{}))
 		e.modes = append(e.modes, &mode{name: "follower-never-caught-up", kind: mNCU, sub: "catchingup"})
 	}
 	if want(mPwUnauth) || want(mPwAuth) {
@@ -304,6 +307,17 @@ func (e *env) prepare(t failer, extras [][]string) {
 			harnessFatal(t, "%s does not hold the prepared state: %v", n.name, err)
 		}
 	}
+	if e.empty != nil {
+		if err := e.empty.restoreConfig(); err != nil {
+			harnessFatal(t, "%v", err)
+		}
+		e.empty.do("FLUSHDB")
+		fp, err := e.empty.configFP()
+		if err != nil {
+			harnessFatal(t, "%v", err)
+		}
+		e.empty.wantFP = fp
+	}
 	if e.f != nil {
 		if err := e.f.restoreConfig(); err != nil {
 			harnessFatal(t, "%v", err)
@@ -395,6 +409,8 @@ type refInfo struct {
 	mutates   bool
 	serves    bool
 	docRead   bool
+	dataDep   bool   // the reply differs from the reply of an EMPTY leader: it depends on the stored data
+	emptyNorm string // normalised first reply of the empty leader
 	afterDump string
 }
 
@@ -543,7 +559,7 @@ func (e *env) runCell(t failer, md *mode, cc cellCtx, ref *refInfo) *refInfo {
 			o.pre = e.takeStale(t)
 			c.Label("preexisting-connection-had-run:" + o.pre.primed)
 		}
-		if bname == "auth" && (cc.v == vPlain || cc.v == vJSON) && len(args) >= 2 && strings.TrimSpace(args[1]) == n.pass {
+		if bname == "auth" && (cc.v == vPlain || cc.v == vJSON) && len(args) >= 2 && args[1] == n.pass {
 			expectAuth = true
 		}
 	}
@@ -586,7 +602,7 @@ func (e *env) runCell(t failer, md *mode, cc cellCtx, ref *refInfo) *refInfo {
 		out.mutates = dumpChanged || aofChanged
 		out.serves = res.HaveReply && !res.IsErr && res.Leak != ""
 		g := e.groups[bname]
-		out.docRead = (g == "keys" || g == "search") && bname != "stats" && !out.mutates && res.HaveReply && !res.IsErr
+		out.docRead = (g == "keys" || g == "search") && !out.mutates && res.HaveReply && !res.IsErr
 		if out.mutates {
 			c.Label("ref:mutates")
 		}
@@ -632,7 +648,11 @@ func (e *env) runCell(t failer, md *mode, cc cellCtx, ref *refInfo) *refInfo {
 		}
 		if md.kind == mNCU {
 			aofStream := bname == "aof" || (len(args) > 2 && bname == "timeout" && strings.ToLower(args[2]) == "aof")
-			if (ref.serves || ref.docRead) && !aofStream {
+			dataRead := ref.dataDep && !ncuAdmin[bname] && ref.res.HaveReply && !ref.res.IsErr
+			if dataRead {
+				c.Label("checked:data-dependent-reply-refused-while-catching-up")
+			}
+			if (ref.serves || ref.docRead || dataRead) && !aofStream {
 				c.Label("checked:read-refused-while-catching-up")
 				e.keepSample(md.sub, cc.info.Name, map[string]any{"mode": md.name, "cmd": t38.CmdString(w), "reply": res.First, "leader_reply": ref.res.First})
 				c.NonTrivial(fmt.Sprintf("%s|%s|%s|read|%s", md.name, cc.v, cc.info.Name, oc))
@@ -651,9 +671,6 @@ func (e *env) runCell(t failer, md *mode, cc cellCtx, ref *refInfo) *refInfo {
 				} else {
 					fail("data-leak", "reply of a follower that never caught up contains stored data ("+res.Leak+")")
 				}
-			}
-			if bname == "stats" && res.HaveReply && !res.IsErr {
-				c.Label("impl-mirrored:stats-answered-while-catching-up")
 			}
 			e.ncuBatch = append(e.ncuBatch, cc.replay(md.name, w))
 		}
@@ -912,6 +929,7 @@ func runMatrix(rt *rapid.T, e *env, only map[string]bool) {
 				if ref == nil || !ref.ok {
 					continue
 				}
+				e.runEmpty(rt, cc, ref)
 				for _, md := range e.modes[1:] {
 					e.runCell(rt, md, cc, ref)
 				}
@@ -1009,6 +1027,39 @@ func TestC15_Regress(t *testing.T) {
 					t.Errorf("VIOLATION-CANDIDATE key=%s: %s", id, what)
 				}
 				e.prepare(t, nil) // the probe had an effect: start the next one from the prepared state again
+			}
+		}
+	}
+	// finding follower-not-caught-up-serves-test: TEST GET ... and STATS read stored
+	// objects and were missing from the catching-up class
+	if e.ncu != nil {
+		const id2 = "follower-not-caught-up-serves-test"
+		for _, base := range [][]string{
+			{"TEST", "GET", "cnrK1", "cnrIa", "INTERSECTS", "CLIP", "BOUNDS", "-90", "-180", "90", "180"},
+			{"TEST", "GET", "cnrK1", "cnrIa", "WITHIN", "BOUNDS", "-90", "-180", "90", "180"},
+			{"STATS", "cnrK1"}, {"STATS", "cnrK1", "cnrK3", "cnrSECRETkey"},
+		} {
+			for _, v := range []variant{vPlain, vJSON, vTimeout, vHTTP} {
+				w, _ := wire(v, base)
+				if v.http() && !httpRepresentable(w) {
+					continue
+				}
+				c.Case()
+				lead := execCell(execOpts{addr: e.ref.srv.Addr, v: v, wire: w, httpAuth: "x"})
+				res := execCell(execOpts{addr: e.ncu.srv.Addr, v: v, wire: w, httpAuth: "x"})
+				c.Label("never-caught-up/" + strings.ToLower(base[0]) + "/" + string(v) + "/" + outcomeClass(res))
+				if !lead.IsErr {
+					c.NonTrivial("ncu-test-stats|" + string(v) + "|" + t38.CmdString(base))
+				}
+				if !res.IsErr || !strings.Contains(res.ErrMsg, "catching up") || res.Leak != "" {
+					what := fmt.Sprintf("follower that never caught up, %s: %s -> %s (leader: %s)", v, t38.CmdString(w), clip(res.First, 160), clip(lead.First, 80))
+					if ev.KnownActive(id2) {
+						c.Known(id2, what)
+					} else {
+						c.Violation(id2, what, cellReplay{Mode: "follower-never-caught-up", Variant: string(v), Cmd: strings.ToLower(base[0]), Args: base})
+						t.Errorf("VIOLATION-CANDIDATE key=%s: %s", id2, what)
+					}
+				}
 			}
 		}
 	}
@@ -1326,5 +1377,69 @@ func TestC15_PasswordChange(t *testing.T) {
 		n.pass = p2
 		n.mustOK("CONFIG", "SET", "requirepass", p1)
 		n.pass = p1
+	}
+}
+
+// ---- data dependence (never-caught-up follower) -------------------------------------------
+
+// ncuAdmin: commands a follower that has not caught up may answer although
+// their reply differs between servers: connection and administration
+// commands, and the replication stream (AOF/AOFMD5, needed by followers).
+var ncuAdmin = map[string]bool{"ping": true, "echo": true, "output": true, "auth": true, "quit": true, "hello": true, "command": true,
+	"aof": true, "aofmd5": true, "aofshrink": true, "gc": true, "client": true, "config": true, "follow": true, "slaveof": true,
+	"replconf": true, "readonly": true, "script": true, "subscribe": true, "psubscribe": true, "publish": true, "monitor": true,
+	"massinsert": true, "sleep": true, "shutdown": true}
+
+// (the reply may be rendered quoted, with the inner quotes escaped)
+var reElapsed = regexp.MustCompile(`\\?"elapsed\\?":\\?"[^"\\]*\\?"`)
+
+func normReply(r result) string {
+	return fmt.Sprintf("%v|%v|%s", r.HaveReply, r.IsErr, reElapsed.ReplaceAllString(r.First, ""))
+}
+
+// runEmpty runs the cell on a leader that holds no data. If its reply differs
+// from the prepared leader's, the reply depends on the stored data: that is
+// what a follower that never caught up must not answer, whichever command it
+// is (no list of read commands).
+func (e *env) runEmpty(t failer, cc cellCtx, ref *refInfo) {
+	n := e.empty
+	if n == nil || e.ncu == nil {
+		return
+	}
+	args := e.resolve(cc.base, mLeader)
+	w, preload := wire(cc.v, args)
+	if cc.v.http() && !httpRepresentable(w) {
+		return
+	}
+	if preload != "" {
+		n.do("SCRIPT", "LOAD", preload)
+	}
+	bname := baseName(args)
+	shrinks := n.shrinks.Load()
+	res := execCell(execOpts{addr: n.srv.Addr, v: cc.v, wire: w, httpAuth: "cnrAnyAuth"})
+	if bname == "aofshrink" && res.HaveReply && !res.IsErr {
+		n.waitShrinks(shrinks+1, 30*time.Second)
+	}
+	ref.emptyNorm = normReply(res)
+	ref.dataDep = ref.emptyNorm != normReply(ref.res)
+	if ref.dataDep {
+		e.cs["leader"].Label("ref:reply-depends-on-data")
+	}
+	// put the empty leader back: no data, default settings
+	fp, err := n.configFP()
+	if err != nil {
+		harnessFatal(t, "%v", err)
+	}
+	dirty := fp != n.wantFP
+	if v, err := n.do("SERVER"); err != nil || v.IsErr() {
+		dirty = true
+	} else if m := serverMap(v); m["num_objects"] != "0" || m["num_hooks"] != "0" || m["read_only"] == "true" || m["following"] != "" {
+		dirty = true
+	}
+	if dirty {
+		if err := n.restoreConfig(); err != nil {
+			harnessFatal(t, "%v", err)
+		}
+		n.do("FLUSHDB")
 	}
 }
